@@ -10,13 +10,16 @@ RT_Q = [(1, 3, 0, 0), (1, 3, 0, 1), (1, 3, 0, 3), (1, 12, 5, 0), (0, 0, 0, 1)]
 RT_T = [(1, 3, 0, 2), (0, 7, 3, 0), (1, 4, 0, 0), (1, 8, 0, 1), (0, 12, 0, 3), (1, 0, 0, 0), (1, 12, 5, 1), (1, 12, 5, 3), (1, 7, 0, 0)]
 FB_Q = [(1, 3, 0, 0), (1, 3, 0, 1), (1, 3, 0, 3)]
 FB_T = [(0, 4, 0, 0), (1, 7, 2, 1), (1, 7, 2, 3), (1, 12, 0, 3), (0, 0, 0, 0), (1, 0, 0, 1), (1, 3, 0, 2), (1, 8, 0, 0)]
-# (H, n, start, path, bit_lo, bit_hi)
-FL_Q = [(1, 0, 0, 3, 0, 32), (1, 0, 0, 0, 0, 4), (1, 0, 0, 1, 0, 4), (1, 2, 0, 0, 4, 32)]
-FL_T = [(1, 3, 0, 3, 0, 32), (0, 4, 0, 3, 0, 32), (1, 3, 0, 0, 0, 4), (1, 3, 0, 1, 0, 4), (1, 2, 0, 1, 4, 32), (0, 0, 0, 0, 0, 32), (1, 7, 0, 3, 0, 32)]
-BU_Q = [(1, 3, 0, 3)]
-BU_T = [(1, 3, 0, 0), (1, 3, 0, 1), (0, 4, 0, 3), (1, 7, 0, 3)]
-TR_Q = [(1, 3, 0, 0), (1, 3, 0, 1), (1, 3, 0, 3)]
-TR_T = [(1, 3, 0, 2), (0, 0, 0, 0), (1, 12, 3, 1), (0, 7, 0, 3)]
+# (H, n, start, path, bit_lo, bit_hi): a one-bit range = concrete flipped bit (Reader paths), wider = symbolic (parse_record)
+FL_Q = [(1, 0, 0, 3, 0, 32), (1, 0, 0, 0, 0, 1), (1, 0, 0, 1, 0, 1), (1, 0, 0, 0, 1, 2), (1, 0, 0, 1, 2, 3), (1, 2, 0, 0, 3, 4), (1, 2, 0, 1, 31, 32)]
+FL_T = [(1, 3, 0, 3, 0, 32), (0, 4, 0, 3, 0, 32), (0, 0, 0, 3, 0, 32), (1, 7, 0, 3, 0, 32)] + \
+       [(1, 2, 0, p, b, b + 1) for p in (0, 1, 2) for b in (0, 1, 2, 3, 4, 5, 7, 8, 16, 30, 31)]
+# (H, n, start, path, straddle)
+BU_Q = [(1, 3, 0, 3, "false"), (1, 3, 0, 3, "true")]
+BU_T = [(1, 3, 0, 0, "false"), (1, 3, 0, 1, "false"), (0, 4, 0, 3, "false"), (1, 7, 0, 3, "false"), (1, 3, 0, 0, "true")]
+# (H, n, start, path, cut): cut -1 = symbolic visible length (parse_record), >= 0 = concrete (Reader paths)
+TR_Q = [(1, 3, 0, 3, -1), (1, 3, 0, 0, 4), (1, 3, 0, 1, 8), (1, 3, 0, 0, 11), (1, 3, 0, 1, 11), (1, 3, 0, 2, 9)]
+TR_T = [(0, 7, 0, 3, -1), (1, 12, 3, 3, -1), (0, 0, 0, 3, -1)] + [(1, 3, 0, p, c) for p in (0, 1, 2) for c in (0, 1, 4, 7, 8, 9, 10, 11)]
 
 
 def instances():
@@ -25,19 +28,31 @@ def instances():
         for (H, n, s, p) in lst:
             out.append((grp, f"c17_roundtrip_h{H}_{n}_s{s}_{PATHS[p]}", f"roundtrip::<{H}>({n}, {s}, {p})",
                         f"append(header,data); sync => the {PATHS[p]} read path returns the record byte-identical (iteration then ends) [H={H}, {n} data bytes symbolic, start {s}]", False))
-    for fam, call, q, t, obl in (
-        ("flipbody", "bitflip_body", FB_Q, FB_T, "one flipped bit at ANY position of crc|header|data (symbolic position) => the read path reports an error, never valid data"),
-        ("burst", "burst_body", BU_Q, BU_T, "burst error of <= 32 bits (symbolic start bit and 32-bit pattern) inside crc|header|data => never valid data"),
-        ("trunc", "truncated", TR_Q, TR_T, "only a strict prefix of the record visible (symbolic cut: flushed offset / zeros after the cut) => never valid data"),
-    ):
-        for grp, lst in (("q", q), ("t", t)):
-            for (H, n, s, p) in lst:
-                out.append((grp, f"c17_{fam}_h{H}_{n}_s{s}_{PATHS[p]}", f"{call}::<{H}>({n}, {s}, {p})", f"{obl} [path {PATHS[p]}, H={H}, {n} data bytes symbolic, start {s}]", fam == "burst"))
+    obl = "one flipped bit at ANY position of crc|header|data (symbolic position) => the read path reports an error, never valid data"
+    for grp, lst in (("q", FB_Q), ("t", FB_T)):
+        for (H, n, s, p) in lst:
+            out.append((grp, f"c17_flipbody_h{H}_{n}_s{s}_{PATHS[p]}", f"bitflip_body::<{H}>({n}, {s}, {p})", f"{obl} [path {PATHS[p]}, H={H}, {n} data bytes symbolic, start {s}]", False))
+    for grp, lst in (("q", BU_Q), ("t", BU_T)):
+        for (H, n, s, p, st) in lst:
+            fam = "burststraddle" if st == "true" else "burst"
+            where = "starting inside the stored CRC field (may reach into header/data)" if st == "true" else "entirely inside header|data"
+            out.append((grp, f"c17_{fam}_h{H}_{n}_s{s}_{PATHS[p]}", f"burst_body::<{H}>({n}, {s}, {p}, {st})",
+                        f"burst error of <= 32 bits (symbolic start bit and 32-bit pattern) {where} => never valid data [path {PATHS[p]}, H={H}, {n} data bytes symbolic]", True))
+    for grp, lst in (("q", TR_Q), ("t", TR_T)):
+        for (H, n, s, p, c) in lst:
+            cs = "sym" if c < 0 else str(c)
+            out.append((grp, f"c17_trunc_h{H}_{n}_s{s}_{PATHS[p]}_c{cs}", f"truncated::<{H}>({n}, {s}, {p}, {c})",
+                        f"only a strict prefix of the record visible ({'symbolic cut' if c < 0 else f'cut after {c} bytes'}: flushed offset there / zeros after the cut) => never valid data [path {PATHS[p]}, H={H}, {n} data bytes symbolic]", False))
     for grp, lst in (("q", FL_Q), ("t", FL_T)):
         for (H, n, s, p, lo, hi) in lst:
             out.append((grp, f"c17_fliplen_h{H}_{n}_s{s}_{PATHS[p]}_b{lo}_{hi}", f"bitflip_len::<{H}>({n}, {s}, {p}, {lo}, {hi})",
                         f"one flipped bit at a symbolic position in [{lo},{hi}) of the 4-byte length field (a second record follows) => never valid data and no panic [path {PATHS[p]}, H={H}, {n} data bytes symbolic]", False))
-    return out
+    seen, uniq = set(), []
+    for x in out:  # quick entries come first within each family, so a duplicate keeps its quick membership
+        if x[1] not in seen:
+            seen.add(x[1])
+            uniq.append(x)
+    return uniq
 
 
 def generate(d):
@@ -54,11 +69,11 @@ B = (f"segment {DISK} bytes; data <= {MAXD} bytes with length concrete per insta
 def native_replay(rp, workroot):
     import re
     from engine.core import replay_bin
-    m = re.match(r"c17_(fliplen|flipbody|burst|trunc|roundtrip)_h(\d)_(\d+)_s(\d+)_([a-z]+)", rp["harness"])
+    m = re.match(r"c17_(fliplen|flipbody|burststraddle|burst|trunc|roundtrip)_h(\d)_(\d+)_s(\d+)_([a-z]+)", rp["harness"])
     if not m:
         return None, "no native reproducer"
     fam, H, n, s, path = m.groups()
-    if fam != "burst":
+    if not fam.startswith("burst"):
         return replay_bin("c17", [fam, H, n, s, path])
     # the solver's concrete values, in kani::any() order: data[12], header[H], s (usize), pat (u32)
     flat = [b for v in rp.get("concrete_vals", []) for b in v]
